@@ -247,6 +247,12 @@ class Woven:
 
 def weave(e_src, e0_src, p_src):
     e_toks, e0_toks, p_toks = lex(e_src), lex(e0_src), lex(p_src)
+    if not e_toks and not e0_toks:
+        w = Woven()
+        w.text = p_src
+        w.annot_tokens = len(p_toks)
+        w.line_tags = [{'annot'} for _ in p_src.split('\n')]
+        return w
     m0 = subseq_align(e0_src, e0_toks, p_src, p_toks)       # E0 -> P
     is_code = [False] * len(p_toks)
     for j in m0:
